@@ -49,6 +49,16 @@ CORPUS = [
 ]
 
 
+# first-touch histories: the FIRST event of the process is a read / hasattr of one single lazy attribute name
+# (companions such as covalent_radius_uncertainty and the *_units names included) through an element, an
+# isotope, an element ion and an isotope ion, with and without data; judged by the oracle against the
+# canonical values also when the generated model cannot express the source (the closure is then empty).
+FIRST_ATOMS = [(26, 0, 0), (26, 56, 0), (26, 0, 2), (26, 56, 2), (29, 0, 0), (27, 59, 0), (1, 2, 1), (0, 0, 0),
+               (118, 294, 0), (64, 157, 0)]
+FIRST_TOUCH = [[(how, "public", key, attr)] for attr in LAZY_ATTRS for key in FIRST_ATOMS for how in ("read", "has")] + \
+    [[("has", "public", key, attr), ("read", "public", key, attr)] for attr in LAZY_ATTRS for key in FIRST_ATOMS[:4]]
+
+
 def public_events(lab, rng):
     r = rng.random()
     if r < 0.40:
@@ -107,7 +117,11 @@ def run(run: Run) -> int:
         if not lab.model_ok:
             run.notes.append("translator could not read the lazy-loading source (%s): histories are judged by "
                              "the oracle only" % lab.unreadable)
+            if not run.proof_broken:
+                run.proof_broken.append("the model generated from the lazy-loading source cannot express the "
+                                        "histories (%s); histories are judged by the oracle only" % lab.unreadable)
         execute(run, lab, CORPUS, "lazy-corpus", "corpus")
+        execute(run, lab, FIRST_TOUCH, "lazy-first-touch", "first-touch")
         total_states = 0
         for gi in range(len(lab.cfg["groups"]) if lab.model_ok else 0):
             n, hs = lab.closure_histories(gi, 0)
@@ -144,7 +158,7 @@ def replay(data) -> int:
             reps = lab.run_model([h], [outs])[0]
             print("history :", h)
             print("real    :", [o[:2] for o in outs])
-            print("model   :", [r[:2] for r in reps])
+            print("model   :", [r[:2] for r in reps] if reps is not None else "none (source not expressible: %s)" % lab.unreadable)
             for i, what, keys in oracle(lab, h, outs):
                 print("ORACLE  : event %d: %s" % (i, what))
                 rc = 1
